@@ -302,6 +302,7 @@ func histGen(prop string, stores []string) func(t *rapid.T) histCase {
 		if prop == "C09" {
 			o.Choices, o.NestedChoice = true, true
 			o.MaxChildren = 4
+			o.Augments = false // drawn below, once the fixed choice is in place
 		}
 		m := dm.GenModule(t, o)
 		if prop == "C09" {
@@ -315,6 +316,7 @@ func histGen(prop string, stores []string) func(t *rapid.T) histCase {
 			}}
 			m.Top = append(m.Top, g)
 			m = &dm.Module{Name: m.Name, Identities: m.Identities, Top: m.Top}
+			dm.GenLayout(t, m)
 		}
 		root := m.Root()
 		to := dm.TreeOpts{MaxEntries: 3, EasyKeys: true, EasyStrings: true, PresentPct: 70, NoEmptyStr: true}
